@@ -383,8 +383,14 @@ def build() -> Check:
                     if isinstance(g_, ast.If) and ast.unparse(g_.test) not in (f"{item_}.completion_event", f"{item_}.completion_event is not None"):
                         unreleased.append(f"line {c.lineno}: the release is guarded by `{ast.unparse(g_.test)}`")
                 if isinstance(scope, ast.While):
-                    t_ = ast.unparse(scope.test).replace(" ", "")
-                    if not (t_ == "True" or (t_.startswith("not") and t_.endswith(".empty()")) or t_.endswith(".qsize()>0") or t_.endswith(".qsize()")):
+                    tst = scope.test
+                    is_true = isinstance(tst, ast.Constant) and tst.value is True
+                    not_empty = isinstance(tst, ast.UnaryOp) and isinstance(tst.op, ast.Not) and isinstance(tst.operand, ast.Call) and isinstance(tst.operand.func, ast.Attribute) \
+                        and tst.operand.func.attr == "empty"
+                    has_size = (isinstance(tst, ast.Call) and isinstance(tst.func, ast.Attribute) and tst.func.attr == "qsize") or (
+                        isinstance(tst, ast.Compare) and isinstance(tst.left, ast.Call) and isinstance(tst.left.func, ast.Attribute) and tst.left.func.attr == "qsize"
+                        and len(tst.ops) == 1 and isinstance(tst.ops[0], ast.Gt) and isinstance(tst.comparators[0], ast.Constant) and tst.comparators[0].value == 0)
+                    if not (is_true or not_empty or has_size):
                         unreleased.append(f"line {scope.lineno}: the drain loop runs while `{ast.unparse(scope.test)}`")
     ck.floor("stop_path_items_taken", n_taken, 1)
     ck.ob("R6.stop-releases-queued-waiters", c_cbf, not unreleased,
